@@ -56,6 +56,24 @@ CLAIMS = {
         'technique': 'Lean 4 proof (loop invariants as dependent arguments; join/non-empty lemmas) + differential correspondence + eval oracle',
         'design_ref': 'DESIGN.md section 5, C02',
     },
+    'C15': {
+        'text': "Lean theorem C15.refines: for EVERY history of registrations (by class, by name, by predicate), prints and is_registered queries and every value, the printer chosen by the registry state machine (model of register_pretty / is_registered / _promote_deferred / singledispatch) is the latest registration of the nearest class of the value's MRO (deferred = direct), else the first-registered accepting predicate, else repr — proved by the refinement invariant inv_run (effective registration = latest in history) and dispatch_after_isRegistered; C15.no_effect: register_deferred=False leaves the state untouched. Tied to /repo by running all operation sequences of length <= 3 (thorough 4) over 24 operations on a fresh diamond + multiple-inheritance lattice plus random histories of length 5-25, comparing which printer ran, booleans and ValueError; an independent history-defined oracle is evaluated on the implementation's results. F12 repaired.",
+        'note': "singledispatch on plain classes is modelled as 'first class of type.__mro__ in the registry'; ABC registration is out of scope; model = code only on the explored histories",
+        'technique': 'Lean 4 proof (refinement of a state machine to a history-defined spec) + differential correspondence (exhaustive short histories)',
+        'design_ref': 'DESIGN.md section 5, C15',
+    },
+    'C19': {
+        'text': "Lean theorems C15.history_independent (printing / querying never changes the printer a later print uses: it depends on the registration history alone) and C19.pure_function (no hidden state reaches the model). Runtime part (partial): a corpus of 59 values (built-ins, cycles, shared substructure, both zeros, stdlib types, unregistered objects) printed in random permutations with repetitions under several settings, every output compared with the one obtained when the value is printed first in a fresh interpreter; canonical deep snapshots of all inputs before and after.",
+        'note': "partial: input immutability cannot be stated over immutable model values and is checked by snapshots only; mutation through user __eq__/__hash__/__missing__ side effects or generators is not covered",
+        'technique': 'Lean 4 proof (history independence via the C15 refinement) + fresh-interpreter / permutation / snapshot exploration',
+        'design_ref': 'DESIGN.md section 5, C19',
+    },
+    'C20': {
+        'text': "Lean theorem C20.linearizable: in the small-step model of pretty_python_value's registry part (one step per access to the deferred dict / singledispatch object, after the F16 repair), for ANY number of threads, ANY classes, ANY starting registry state and EVERY schedule, each finished thread obtained exactly the printer a sequential print obtains; the model is total, so no step can raise. Proof: global invariant (effective registrations constant, deferred entries only disappear) + per-thread program-counter invariants, preserved by every step (step_inv) and stable under other threads' steps. Runtime part: real threads under a deterministic scheduler with a switch point at every such access; all schedules with <= 2 (thorough 3) pre-emptions for 7 scenarios; per schedule the results equal the sequential ones, nothing raises, and the global access log equals the Lean model's log for the same schedule.",
+        'note': "partial: atomicity granularity = one dict / singledispatch operation (atomic under the GIL); pre-emption inside such an operation, free-threaded builds, concurrent registration and cpprint's global colour palette are not covered",
+        'technique': 'Lean 4 proof (invariant over all interleavings of a small-step model) + deterministic-scheduler exploration of real threads with log-level correspondence',
+        'design_ref': 'DESIGN.md section 5, C20',
+    },
     'C04': {
         'text': "Lean theorems C04.sound / sound_plain (the stack machine's output is a rendering of the document in the reference semantics Lay, for every document, width, ribbon and both strategies), ann_balanced (push/pop well bracketed), render_trim (the renderer only trims trailing whitespace), with lay_normalize (Lay closed under normalisation). The model is tied to /repo by exact comparison of SDoc streams and rendered text on all documents <= 4 (thorough: 5) nodes x 96 configurations plus seeded random documents. The forcing clause for bare hardline is known finding K1.",
         'note': "trusted: Lean kernel; model = code only on the explored inputs; ribbon fractions restricted to float-exact ones; FlatChoice lazy normalisation modelled as a pure function",
